@@ -325,6 +325,34 @@ def forms_case(case, res):
         if now != meta_before:
             res.violation(f"out=|{uf.__name__}|metadata", f"out=z changed z's own metadata [{sub}]", case, sub)
         res.hits["out= returns the same object"] += 1
+    # ufunc keyword arguments are passed through: dtype=, casting=, where= (with out=)
+    if kind in "fi" and be == "numpy":
+        zk = make_sig(cls, dt, be)
+        refd = materialise(zk.data)
+        for nm, fn, want in (("dtype=", lambda: np.add(zk, 1, dtype=np.float64), np.add(refd, 1, dtype=np.float64)),
+                             ("casting=", lambda: np.multiply(zk, 2, casting="same_kind"), np.multiply(refd, 2, casting="same_kind"))):
+            ok_, wc = class_cast(type(zk), np.asarray(want))
+            try:
+                r = fn()
+            except Exception as e:
+                if ok_:
+                    res.violation(f"kwargs|{nm}|raised", f"{type(e).__name__}: {e}", case, {"kw": nm})
+                continue
+            res.transitions += 1
+            if ok_ and (not isinstance(r, pb.Signal) or not values_equal(r.data, wc)):
+                res.violation(f"kwargs|{nm}|values", f"{nm} result differs from the ufunc on the data", case, {"kw": nm})
+        tgt = make_sig(cls, dt, be, True)
+        tref = materialise(tgt.data).copy()
+        mask = (np.arange(refd.size).reshape(refd.shape) % 2 == 0)
+        np.add(refd, 5, out=tref, where=mask)
+        try:
+            r = np.add(zk, 5, out=tgt, where=mask)
+            res.transitions += 1
+            if r is not tgt or not values_equal(tgt.data, tref):
+                res.violation("kwargs|where=|values", "np.add(z, 5, out=t, where=mask) differs from the same call on the data", case, None)
+        except Exception as e:
+            res.violation("kwargs|where=|raised", f"{type(e).__name__}: {e}", case, None)
+        res.hits["ufunc keyword arguments"] += 1
     if kind in "fc":
         # two outputs with out tuples
         for outform in ("(z,None)", "(None,z)", "(z,z2)"):
@@ -465,7 +493,7 @@ def main(argv=None):
         PID, gen_cases=gen_cases, check_case=check_case, describe=describe,
         required_hits=["reference raises: signal call raises too", "result dtype not admitted -> ValueError", "two outputs",
                        "python float/complex scalar with integer or bool signal", "signals of two classes", "operators",
-                       "out= returns the same object", "two-output out= tuple", "in-place chains", "refused with TypeError",
+                       "out= returns the same object", "two-output out= tuple", "in-place chains", "ufunc keyword arguments", "refused with TypeError",
                        "array conversion", "conversion, in-place write, conversion"],
         assumptions=["NumPy dispatches a binary ufunc to a strict-subclass operand first, so for (superclass signal, subclass signal) the "
                      "type of the result is left open", "for Dask data an error may surface at compute time"],
